@@ -5,7 +5,7 @@ cd "$(dirname "$0")/.."
 IDS="$@"
 [ -z "$IDS" ] && IDS=$(python3 -c "import json;print(' '.join(c['property_id'] for c in json.load(open('MANIFEST.json'))['checks']))")
 for id in $IDS; do
-  for n in 1 2 3; do
+  for n in ${NS:-1 2 3 4 5 6}; do
     d=seeded/$id/$n
     [ -f $d/patch.diff ] || continue
     s=$(date +%s)
